@@ -3,7 +3,7 @@
 P=$(readlink -f "$1"); PROP=$2; TIER=${3:-quick}; SEED=${4:-1}
 D=$(mktemp -d /tmp/mc_XXXXXX); rmdir "$D"
 git -C /repo worktree add -q --detach "$D" HEAD || exit 9
-if ! git -C "$D" apply "$P"; then echo "PATCH DOES NOT APPLY: $P"; git -C /repo worktree remove --force "$D"; exit 9; fi
+if ! git -C "$D" apply "$P" 2>/dev/null && ! { git -C "$D" reset -q --hard; git -C "$D" apply -3 "$P" >/dev/null 2>&1 && [ -z "$(git -C "$D" diff --name-only --diff-filter=U)" ] && git -C "$D" reset -q; }; then echo "PATCH DOES NOT APPLY: $P"; git -C /repo worktree remove --force "$D"; exit 9; fi
 cd "$(dirname "$0")/.." && VERIF_SEED=$SEED VERIF_NO_EVIDENCE=1 VERIF_REPO="$D" ./check "$PROP" --tier "$TIER" > "$D.out" 2>&1
 grep -E "^(VIOLATION|OK prop|INCONCLUSIVE)" "$D.out" | cut -c1-300 | head -2; grep -E "rule " "$D.out" | cut -c1-300 | head -2; rm -f "$D.out"
 git -C /repo worktree remove --force "$D"
